@@ -515,10 +515,25 @@ func c01Framing(a *A, r *Roles) {
 		fmt.Sprintf("the event buffer has %s bytes filled from %s; a binlog packet is one status byte followed by the event", ln, src))
 	// classification reads buf[0]
 	ok := false
+	firstByteRead := func(g *ssa.Function, b ssa.Value) {
+		instrs(g, func(in ssa.Instruction) {
+			if ia, isIA := in.(*ssa.IndexAddr); isIA && ia.X == b {
+				if k, isK := constInt(ia.Index); isK && k == 0 {
+					ok = true
+				}
+			}
+		})
+	}
+	firstByteRead(f, buf)
+	// ... or by an in-package function the packet is handed to
 	instrs(f, func(in ssa.Instruction) {
-		if ia, isIA := in.(*ssa.IndexAddr); isIA && ia.X == buf {
-			if k, isK := constInt(ia.Index); isK && k == 0 {
-				ok = true
+		if c, isC := in.(*ssa.Call); isC && !c.Common().IsInvoke() {
+			if cal := c.Common().StaticCallee(); cal != nil && cal.Pkg == w.Root && cal.Blocks != nil {
+				for i, arg := range c.Common().Args {
+					if arg == buf && i < len(cal.Params) {
+						firstByteRead(cal, cal.Params[i])
+					}
+				}
 			}
 		}
 	})
